@@ -55,6 +55,8 @@ func runC12(c *Config, r *Report) {
 	c12R13(ic, r)
 	c12R15(ic, r)
 	c12R16(ic, r)
+	c12R17and18(ic, r)
+	c12R19(ic, r)
 	{
 		// R12.14 = R06.15: an ill-typed program that makes a compile pass fault is rejected with
 		// an error, not with a panic of the host
@@ -1001,4 +1003,138 @@ func dedup(s []string) []string {
 		}
 	}
 	return out
+}
+
+func init() {
+	ruleText["R12.17"] = "a constant is narrowed to a type only after it was found representable in it: in every function of the type checker, each call of convertConst is dominated (flow graph) by a call of representable - no condition on the types lets a constant reach the conversion unchecked"
+	ruleText["R12.18"] = "in the check of array and slice literals the duplicate-index test applies to every element: the test of the visited set that raises the error is not nested under the key-value case - an unkeyed element lands on the index following the previous one, which an earlier key may already have set"
+}
+
+// c12R17: round-6 seed. convertUntyped skipped the representability check when the constant
+// kept its default type: var x int = 1 << 70 was accepted.
+// c12R18: round-6 seed. The duplicate test was moved into the key-value case:
+// []int{1: 10, 0: 5, 20} was accepted.
+func c12R17and18(ic *IC, r *Report) {
+	info := ic.Info
+	n := 0
+	for _, name := range sortedKeys(ic.F) {
+		fi := ic.F[name]
+		if fi.Decl.Body == nil {
+			continue
+		}
+		convs := callsIn(info, fi.Decl.Body, false, "interp.typecheck.convertConst")
+		if len(convs) == 0 {
+			continue
+		}
+		reprs := callsIn(info, fi.Decl.Body, false, "interp.typecheck.representable")
+		fg := buildFlow(fi.Decl.Body, info)
+		for i, c := range convs {
+			n++
+			okDom := false
+			for _, rp := range reprs {
+				if d, ok := fg.dominates(rp, c); ok && d {
+					okDom = true
+				}
+			}
+			r.Check(okDom, "R12.17", fmt.Sprintf("%s/conversion#%d/after-the-representability-check", name, i+1), ic.pos(c.Pos()), "a call of representable dominates the conversion",
+				name+" narrows a constant with convertConst at "+ic.pos(c.Pos())+" on a path that does not pass the representability check: var x int = 1 << 70, or a constant argument overflowing its parameter type, is accepted and silently truncated instead of being rejected with 'overflows'")
+		}
+	}
+	if n == 0 {
+		r.Errorf("R12.17: no call of convertConst found in the type checker")
+	}
+	// R12.18
+	fi := ic.fn(r, "typecheck.arrayLitExpr")
+	if fi == nil {
+		return
+	}
+	// the visited set: a local map[int]bool indexed in a condition whose body returns an error
+	k := 0
+	ast.Inspect(fi.Decl.Body, func(q ast.Node) bool {
+		ifs, ok := q.(*ast.IfStmt)
+		if !ok {
+			return true
+		}
+		ix, ok := unparen(ifs.Cond).(*ast.IndexExpr)
+		if !ok {
+			return true
+		}
+		if t := info.TypeOf(ix.X); t == nil || types.TypeString(t, nil) != "map[int]bool" {
+			return true
+		}
+		if len(ifs.Body.List) == 0 {
+			return true
+		}
+		if _, isRet := ifs.Body.List[len(ifs.Body.List)-1].(*ast.ReturnStmt); !isRet {
+			return true
+		}
+		k++
+		under := ""
+		for _, p := range enclosingPath(fi.Decl.Body, ifs) {
+			switch y := p.(type) {
+			case *ast.CaseClause:
+				for _, e := range y.List {
+					under = "the case " + types.ExprString(e)
+				}
+			case *ast.IfStmt:
+				if y != ifs {
+					under = "the test " + types.ExprString(y.Cond)
+				}
+			}
+		}
+		r.Check(under == "", "R12.18", fmt.Sprintf("typecheck.arrayLitExpr/duplicate-index-test#%d/for-every-element", k), ic.pos(ifs.Pos()), "the duplicate test is made for keyed and unkeyed elements alike",
+			"typecheck.arrayLitExpr tests the index against the elements already set only under "+under+": an unkeyed element takes the index after the previous element, which an earlier key may have set - []int{1: 10, 0: 5, 20} is accepted (and the last value silently wins) instead of 'duplicate index 1'")
+		return true
+	})
+	if k == 0 {
+		r.Errorf("R12.18: no duplicate-index test found in typecheck.arrayLitExpr")
+	}
+}
+
+func init() {
+	ruleText["R12.19"] = "a source package is recorded as imported only once it is type-checked: in importSrc no call of the checking passes (ast, gta, gtaRetry, cfg) is reachable (flow graph) from the store into Interpreter.srcPkg - a package that fails its check is not found imported by the next evaluation"
+}
+
+// c12R19: round-6 seed. The registration was moved before the generation of the control flow
+// graphs (where the type check happens): an ill-typed package was rejected the first time only.
+func c12R19(ic *IC, r *Report) {
+	info := ic.Info
+	fi := ic.fn(r, "Interpreter.importSrc")
+	if fi == nil {
+		return
+	}
+	srcPkg := ic.field("Interpreter", "srcPkg")
+	var stores []ast.Node
+	ast.Inspect(fi.Decl.Body, func(q ast.Node) bool {
+		as, ok := q.(*ast.AssignStmt)
+		if !ok {
+			return true
+		}
+		for _, l := range as.Lhs {
+			if ix, ok := unparen(l).(*ast.IndexExpr); ok && selField(info, ix.X) == srcPkg {
+				stores = append(stores, as)
+			}
+		}
+		return true
+	})
+	if len(stores) == 0 {
+		r.Errorf("R12.19: no store into Interpreter.srcPkg found in importSrc")
+		return
+	}
+	passes := callsIn(info, fi.Decl.Body, false, "interp.Interpreter.cfg", "interp.Interpreter.gta", "interp.Interpreter.gtaRetry", "interp.Interpreter.ast")
+	if len(passes) < 4 {
+		r.Errorf("R12.19: only %d calls of the checking passes found in importSrc (ast, gta, gtaRetry, cfg expected)", len(passes))
+		return
+	}
+	fg := buildFlow(fi.Decl.Body, info)
+	for i, st := range stores {
+		var bad []string
+		for _, p := range passes {
+			if re, ok := fg.reaches(st, p); !ok || re {
+				bad = append(bad, types.ExprString(p.Fun)+" at "+ic.pos(p.Pos()))
+			}
+		}
+		r.Check(len(bad) == 0, "R12.19", fmt.Sprintf("importSrc/registration#%d/after-the-checking-passes", i+1), ic.pos(st.Pos()), fmt.Sprintf("none of the %d calls of the checking passes is reachable from the registration", len(passes)),
+			"importSrc records the package as imported at "+ic.pos(st.Pos())+" and can still run "+strings.Join(bad, ", ")+" afterwards: when that pass rejects the package the record stays, so the same program evaluated again finds the package already imported and runs against the ill-typed package with a nil error")
+	}
 }
